@@ -23,8 +23,12 @@ TRUSTED_BASE = [
     "Common/F64.v `fl` as the model of IEEE binary64 round-to-nearest-even (correct rounding of CPython's dtoa)",
     "Phoenix/Model.v is a hand transliteration of extract._parse_phoenix_line / parse_phoenix_prot / csa_series_trans_func; the marker "
     "strings, protocol keys, the 'MrPhoenixProtocol.' prefix and delimiters are copied literals (tied by the prot and csa correspondences, which use them on every case)",
-    "nibabel.nicom.csareader.read and extract.simplify_csa_dict are outside the model: the csa part feeds the model the simplified dict they deliver; "
-    "the Python oracle, which knows the tags it wrote into the CSA2 header, checks their result independently",
+    "nibabel.nicom.csareader.read and extract.simplify_csa_dict are outside the model: the csa part feeds the model the simplified dict they deliver. "
+    "The csa oracle derives every expectation from the tags the generator wrote (item texts; a number must be the number its text spells, which VRs "
+    "nibabel converts is not pinned) and checks per case that the protocol element reaches the parser as the text written; it relies on nibabel's "
+    "CSA2 layout (the hand-built 'SV10' header of build_csa2) and on item text = latin-1 bytes up to the first NUL",
+    "dict results are compared as maps (Corr.items_eqb / csa_dict_eqb and the oracles): the property does not speak about key order; the order "
+    "statements of C16_prot (first_keys) are facts about the model only",
 ]
 ASSUMPTIONS = [
     "bare (unquoted) value tokens contain no non-ASCII decimal digits (Python's int()/float() accept e.g. Arabic-Indic digits, the model rejects them); "
@@ -248,6 +252,14 @@ def build_line(c):
         if val["t"] != "str" or not _legal_str(val["v"], d) or not _key_ok(key, d) or junk.strip() == '' or junk.strip().startswith('#'):
             return line, None
         return line, ("err",)
+    if mut.startswith("numjunk:"):         # a valid number followed by junk (separated by blanks, or attached and starting with a
+        junk = mut[8:]                     # character no number contains): int(), int(,16) and float() all reject the text
+        line = ws[0] + key + ws[1] + "=" + ws[2] + vs + junk + tail
+        body = junk.strip()
+        sep = junk[:len(junk) - len(junk.lstrip())]
+        ok = (val["t"] in ("int", "hex", "float") and expected_value(val, d) is not None and _key_ok(key, d) and body != '' and junk.rstrip() == junk
+              and '#' not in junk and '"' not in junk and body.isascii() and (sep != '' or body[0] in "gz;,:/%$@!GZ"))
+        return line, (("err",) if ok else None)
     if mut == "empty":                     # nothing after the '='
         line = ws[0] + key + ws[1] + "=" + ws[2] + tail
         if not _key_ok(key, d):
@@ -304,7 +316,11 @@ def gen_line_case(rng, delim=None, for_prot=False):
         c["mut"] = rng.choice(["blank", "comment"])
         c["kind"] = c["mut"]
     elif r < 0.9:
-        m = rng.choice(["noeq", "noclose", "junk", "empty", "twoeq"])
+        m = rng.choice(["noeq", "noclose", "junk", "empty", "twoeq", "numjunk", "numjunk"])
+        if m == "numjunk":
+            while c["val"]["t"] == "str" or expected_value(c["val"], d) is None:
+                c["val"] = _value(rng, d)
+            m = "numjunk:" + rng.choice([" ", "\t", "  ", "", ""]) + rng.choice(["x", "ms", "g", ";", "z 1", ", 5", "/2", "%", "mm # no", "5", "0x1", "1.5", "e3", "= 6", "$", "@a", "!"])
         if m in ("noclose", "junk"):
             c["val"] = {"t": "str", "v": _rand_str(rng, d)}
         if m == "junk":
@@ -402,7 +418,7 @@ class Lines:
     CORR_CASE_TYPE = "Corr.lcase"
     CORR_CHECK = "Corr.lcheck"
     CORR_SHOW = "Corr.lshow"
-    SHARD = 800
+    SHARD = 400
     IMPL_TIMEOUT = 20
     RULE = ("one `key = value` line per case, both quoting dialects: keys from real Siemens names plus random/unicode/odd ones; values: integers "
             "(small .. 2^300, negative, '+', leading zeros), 0x-hex (lower/upper/mixed), floats as repr(random double incl. subnormal/inf/nan) and "
@@ -452,19 +468,13 @@ class Lines:
 
     @staticmethod
     def oracle(case, obs):
-        try:
-            line, exp = build_line(case)
-        except Exception:
-            return None
-        if exp is None:
-            if "crash" in obs and obs["crash"] not in ("HarnessFailure", "Timeout"):
-                return "parsing %s (delimiter %s) crashed with %s instead of returning or raising PhoenixParseError" % (_show(line), case["delim"], obs["crash"])
-            return None
-        return judge_line(line, case["delim"], exp, obs)
+        return _line_verdict(case, obs)[0]
 
     @staticmethod
     def signature(case, obs, msg):
-        return "phoenix-line"
+        # the mechanism is re-derived from the case and the observation: expectation class, dialect, what went wrong
+        mech = _line_verdict(case, obs)[1] or "none"
+        return "line/%s/%s/%s" % (_line_class(case), "d2" if case.get("delim") == D2 else "d1", mech)
 
     @staticmethod
     def nontrivial(case, obs):
@@ -475,27 +485,58 @@ class Lines:
         yield from shrink_line(case)
 
 
+def _line_class(case):
+    """expectation class of a line case (no case data): valid-<type> | blank | malformed-<mutation> | fixed-<expectation> | silent"""
+    if "raw" in case:
+        e = case.get("expect")
+        return "fixed-" + (e[0] if e else "silent")
+    mut = case.get("mut")
+    if mut is None:
+        return "valid-" + case["val"]["t"]
+    if mut in ("blank", "comment"):
+        return "blank"
+    return "malformed-" + mut.split(":")[0]
+
+
+def _line_verdict(case, obs):
+    """-> (message or None, mechanism or None)"""
+    try:
+        line, exp = build_line(case)
+    except Exception:
+        return None, None
+    return judge_line(line, case["delim"], exp, obs)
+
+
 def judge_line(line, delim, exp, obs):
+    """-> (message, mechanism); (None, None) when the observation is what the property demands (or the property is silent)"""
     where = "line %s with delimiter %s" % (_show(line), delim)
     if "crash" in obs:
         if obs["crash"] in ("HarnessFailure", "Timeout"):
-            return None
-        return "%s: crashed with %s (neither a value nor PhoenixParseError)" % (where, obs["crash"])
+            return None, None            # the driver reports these itself (crash/<part>/<cls>)
+        return "%s: crashed with %s (neither a value nor PhoenixParseError)" % (where, obs["crash"]), "crash-" + str(obs["crash"])
+    if exp is None:
+        return None, None
+    seen = {k: v for k, v in obs.items() if k != 'line'}
     if exp[0] == "none":
-        return None if obs.get("none") else "%s is blank/comment-only but the parser returned %s" % (where, _show({k: v for k, v in obs.items() if k != 'line'}))
+        if obs.get("none"):
+            return None, None
+        return "%s is blank/comment-only but the parser returned %s" % (where, _show(seen)), ("raised" if "err" in obs else "not-ignored")
     if exp[0] == "err":
-        return None if obs.get("err") == "EPhoenix" else "%s is malformed but the parser returned %s instead of raising PhoenixParseError" % (
-            where, _show({k: v for k, v in obs.items() if k != 'line'}))
+        if obs.get("err") == "EPhoenix":
+            return None, None
+        return "%s is malformed but the parser returned %s instead of raising PhoenixParseError" % (where, _show(seen)), (
+            "ignored" if obs.get("none") else "accepted")
     _, key, tag, want = exp
     if "err" in obs:
-        return "%s: valid assignment %s = %s rejected with PhoenixParseError" % (where, _show(key), _show(want))
+        return "%s: valid assignment %s = %s rejected with PhoenixParseError" % (where, _show(key), _show(want)), "rejected"
     if obs.get("none"):
-        return "%s: valid assignment ignored (returned None)" % where
+        return "%s: valid assignment ignored (returned None)" % where, "ignored"
     if obs.get("key") != key:
-        return "%s: key %s came back as %s" % (where, _show(key), _show(obs.get("key")))
+        return "%s: key %s came back as %s" % (where, _show(key), _show(obs.get("key"))), "key-altered"
     if not value_matches(obs["val"], tag, want):
-        return "%s: value %s (%s) came back as %s" % (where, _show(want), tag, _show(obs["val"]))
-    return None
+        mech = "type-altered" if obs["val"].get("t") != tag else "value-altered"
+        return "%s: value %s (%s) came back as %s" % (where, _show(want), tag, _show(obs["val"])), mech
+    return None, None
 
 
 def shrink_line(case):
@@ -588,16 +629,42 @@ def _latin1(x):
     return all(0 < ord(ch) < 256 for ch in x)
 
 
-def gen_prot_components(rng, d, latin1=False, p_struct=0.12):
+def _mojibake(lc):
+    """every text component re-read as latin-1 from its UTF-8 bytes (what a Siemens header with UTF-8 text looks like after the
+    CSA reader's latin-1 decoding); expectations are derived from the transformed components, so the oracle stays sound"""
+    m = lambda x: x.encode("utf-8").decode("latin-1")
+    out = dict(lc)
+    if "raw" in out:
+        if out.get("expect"):
+            return lc if _latin1(out["raw"]) else dict(out, raw=m(out["raw"]), expect=None)
+        out["raw"] = m(out["raw"])
+        return out
+    out["ws"] = [m(w) for w in lc["ws"]]
+    out["key"] = m(lc["key"])
+    if lc.get("comment") is not None:
+        out["comment"] = m(lc["comment"])
+    if lc["val"]["t"] in ("str", "float", "raw"):
+        out["val"] = dict(lc["val"], v=m(lc["val"]["v"]))
+    if lc.get("mut") and ":" in lc["mut"]:
+        a, b = lc["mut"].split(":", 1)
+        out["mut"] = a + ":" + m(b)
+    return out
+
+
+def gen_prot_components(rng, d, latin1=False, p_struct=0.12, big=False):
     """before / header / lines / after (+ optional structural mutation) of one protocol text in dialect d"""
-    nl = rng.choice([0, 1, 2, 3, 4, 6, 8, 12])
-    p_bad = rng.choice([0, 0, 0, 0.1, 0.3])
+    nl = rng.choice([0, 1, 2, 3, 4, 6, 8, 12, 12, 25, 60] + ([150, 400] if big else []))
+    p_bad = rng.choice([0, 0, 0, 0.1, 0.3]) if nl <= 12 else rng.choice([0, 0, 0, 0.01])
     lines = []
     for _ in range(nl):
         for _try in range(200):
             lc = gen_line_case(rng, d, for_prot=True)
             if latin1 and not _latin1(build_line(lc)[0]):
-                continue
+                if rng.random() < 0.5:
+                    continue
+                lc = _mojibake(lc)          # the UTF-8 bytes of the line, as the CSA reader decodes them (latin-1)
+                if not _latin1(build_line(lc)[0]):
+                    continue
             bad = lc["kind"].startswith("malformed") or lc["kind"] in ("garbage", "fixed")
             if bad == (rng.random() < p_bad):
                 break
@@ -615,16 +682,63 @@ def gen_prot_components(rng, d, latin1=False, p_struct=0.12):
     return {"before": rng.choice(BEFORE), "header": rng.choice(HEADERS), "lines": lines, "after": rng.choice(AFTER), "struct": st}
 
 
+def compare_items(got, want):
+    """got: [[key, observed value]], want: [[key, tag, value]] -- compared as MAPS (the property speaks of the assignments, not of
+    their order).  -> (text, mechanism) or (None, None)"""
+    gd, wd = {}, {}
+    for k, v in got:
+        if k in gd:
+            return "key %s delivered twice" % _show(k), "key-duplicated"
+        gd[k] = v
+    for k, tag, val in want:
+        wd[k] = (tag, val)
+    missing = [k for k in wd if k not in gd]
+    extra = [k for k in gd if k not in wd]
+    if missing:
+        return "assignments lost: %s (unexpected keys: %s)" % (_show(missing), _show(extra)), ("key-renamed" if extra else "key-lost")
+    if extra:
+        return "unexpected keys %s" % _show(extra), "key-unexpected"
+    for k, (tag, val) in wd.items():
+        if not value_matches(gd[k], tag, val):
+            return "key %s should be %s (%s), got %s" % (_show(k), _show(val), tag, _show(gd[k])), (
+                "type-altered" if gd[k].get("t") != tag else "value-altered")
+    return None, None
+
+
+def _prot_verdict(case, obs):
+    try:
+        pkey, text, exp = build_prot(case)
+    except Exception:
+        return None, None
+    if "crash" in obs:
+        if obs["crash"] in ("HarnessFailure", "Timeout"):
+            return None, None
+        return "parse_phoenix_prot(%s, %s) crashed with %s" % (_show(pkey), _show(text), obs["crash"]), "crash-" + str(obs["crash"])
+    if exp is None:
+        return None, None
+    where = "protocol %s under key %s" % (_show(text), pkey)
+    if exp[0] == "err":
+        if obs.get("err") == "EPhoenix":
+            return None, None
+        return "%s contains a malformed line but parsing returned %s" % (where, _show(obs)), "malformed-accepted"
+    if "err" in obs:
+        return "%s: every line is valid but parsing raised %s" % (where, obs["err"]), "valid-rejected"
+    txt, mech = compare_items(obs["items"], exp[1])
+    if txt:
+        return "%s: %s" % (where, txt), mech
+    return None, None
+
+
 class Prot:
     NAME = "prot"
     CORR_REQUIRE = "From DV Require Import Common.PyNum Phoenix.Model Phoenix.Corr."
     CORR_CASE_TYPE = "Corr.pcase"
     CORR_CHECK = "Corr.pcheck"
     CORR_SHOW = "Corr.pshow"
-    SHARD = 60
+    SHARD = 30
     IMPL_TIMEOUT = 20
     RULE = ("whole protocol texts: arbitrary text before the first BEGIN marker and after the first END marker (incl. a second section), short and long "
-            "BEGIN header, 0-12 lines drawn from the line generator (valid / blank / comment / occasionally malformed), duplicate keys forced in a third "
+            "BEGIN header, 0-60 lines (occasionally 150-400) drawn from the line generator (valid / blank / comment / occasionally malformed), duplicate keys forced in a third "
             "of the cases, both protocol keys plus unknown keys; structural mutations (missing markers, END before BEGIN, no newline before END). "
             "non-trivial = at least one assignment line")
 
@@ -634,7 +748,7 @@ class Prot:
         out = []
         for i in range(n):
             pkey = rng.choice(["MrPhoenixProtocol"] * 12 + ["MrProtocol"] * 12 + ["MrProt", "", "mrprotocol"])
-            c = gen_prot_components(rng, D2 if pkey == "MrPhoenixProtocol" else D1)
+            c = gen_prot_components(rng, D2 if pkey == "MrPhoenixProtocol" else D1, big=(tier != "quick" or rng.random() < 0.04))
             st = c["struct"]
             c["pkey"] = pkey
             c["kind"] = ("struct-" + st) if st else ("unknown-key" if pkey not in ("MrPhoenixProtocol", "MrProtocol") else pkey)
@@ -649,8 +763,10 @@ class Prot:
             res = extract.parse_phoenix_prot(pkey, text)
         except extract.PhoenixParseError:
             return {"err": "EPhoenix"}
-        except ValueError as e:
-            if str(e).startswith('Unknown protocol key'):
+        except Exception:
+            # classified by the case region, never by the message: an unknown protocol key is refused (the code raises
+            # ValueError; the property does not name a class, any exception counts as the refusal the model calls EValue)
+            if pkey not in ("MrPhoenixProtocol", "MrProtocol"):
                 return {"err": "EValue"}
             raise
         return {"items": [[k, observe_value(v)] for k, v in res.items()]}
@@ -672,33 +788,12 @@ class Prot:
 
     @staticmethod
     def oracle(case, obs):
-        try:
-            pkey, text, exp = build_prot(case)
-        except Exception:
-            return None
-        if "crash" in obs:
-            if obs["crash"] in ("HarnessFailure", "Timeout"):
-                return None
-            return "parse_phoenix_prot(%s, %s) crashed with %s" % (_show(pkey), _show(text), obs["crash"])
-        if exp is None:
-            return None
-        where = "protocol %s under key %s" % (_show(text), pkey)
-        if exp[0] == "err":
-            return None if obs.get("err") == "EPhoenix" else "%s contains a malformed line but parsing returned %s" % (where, _show(obs))
-        if "err" in obs:
-            return "%s: every line is valid but parsing raised %s" % (where, obs["err"])
-        got = obs["items"]
-        want = exp[1]
-        if [g[0] for g in got] != [w[0] for w in want]:
-            return "%s: keys %s expected, got %s" % (where, _show([w[0] for w in want]), _show([g[0] for g in got]))
-        for g, w in zip(got, want):
-            if not value_matches(g[1], w[1], w[2]):
-                return "%s: key %s should be %s (%s), got %s" % (where, _show(w[0]), _show(w[2]), w[1], _show(g[1]))
-        return None
+        return _prot_verdict(case, obs)[0]
 
     @staticmethod
     def signature(case, obs, msg):
-        return "phoenix-prot"
+        return "prot/%s/%s" % (case.get("pkey") if case.get("pkey") in ("MrPhoenixProtocol", "MrProtocol") else "other-key",
+                               _prot_verdict(case, obs)[1] or "none")
 
     @staticmethod
     def nontrivial(case, obs):
@@ -748,17 +843,26 @@ def build_csa2(tags):
     return out
 
 
-def _csa_expected_item(vr, x):
-    if vr in CSA_INT_VRS:
-        return ("int", int(x))
-    if vr in CSA_FLT_VRS:
-        return ("float", float(x))
-    return ("str", x)
+def _denotes(o, text):
+    """does the observed item value denote the item text the generator wrote?  (a str must be that text, a number must be the
+    number the text spells -- which VRs the CSA reader converts is nibabel's business, not this property's)"""
+    t = o.get("t")
+    if t == "str":
+        return o["v"] == text
+    try:
+        if t == "int":
+            return o["v"] == str(int(text))
+        if t == "float":
+            return value_matches(o, "float", float(text))
+    except ValueError:
+        return False
+    return False
 
 
 def build_csa(c):
     """components -> (tags incl. the protocol elements, expectation)
-    expectation: None | ("err",) | ("dict", [[key, 'one'|'list', payload], ...] in order, check_order)"""
+    expectation: None | ("err",) | ("dict", chosen element name or None, its text,
+                                    {other tag name: [item texts]}, [[merged key, tag, value], ...])"""
     tags = [dict(t) for t in c["tags"]]
     which = c["which"]
     texts = {}
@@ -785,26 +889,74 @@ def build_csa(c):
         return tags, None
     if chosen and exp_prot[0] == "err":
         return tags, ("err",)
-    want = []
-    for t in sorted(tags, key=lambda t: t["name"]):
-        if t["name"] == chosen or not t["items"]:
-            continue
-        try:
-            vals = [_csa_expected_item(t["vr"], x) for x in t["items"]]
-        except ValueError:
-            return tags, None
-        want.append([t["name"], "one", vals[0]] if len(vals) == 1 else [t["name"], "list", vals])
-    collide = False
+    other = {t["name"]: list(t["items"]) for t in tags if t["name"] != chosen and t["items"]}
+    merged = []
     if chosen:
-        have = set(w[0] for w in want)
         for k, tag, val in exp_prot[1]:
             nk = PHX + "." + k
-            if nk in have:
-                collide = True
-            want.append([nk, "one", (tag, val)])
-    if collide:
-        return tags, None
-    return tags, ("dict", want, True)
+            if nk in other:
+                return tags, None          # an ordinary tag collides with a merged key: the property says nothing
+            merged.append([nk, tag, val])
+    return tags, ("dict", chosen, texts.get(chosen), other, merged)
+
+
+def _csa_verdict(case, obs):
+    """-> (message, mechanism)"""
+    try:
+        tags, exp = build_csa(case)
+    except Exception:
+        return None, None
+    where = "CSA series header (%s, via %s) with tags %s" % (case["which"], case["via"], _show([(t["name"], t["vr"], t["items"]) for t in tags]))
+    if "crash" in obs:
+        if obs["crash"] in ("HarnessFailure", "Timeout"):
+            return None, None
+        return "%s: crashed with %s %s" % (where, obs["crash"], str(obs.get("msg", ""))[:200]), "crash-" + str(obs["crash"])
+    if exp is None:
+        return None, None
+    if exp[0] == "err":
+        if obs.get("err") == "EPhoenix":
+            return None, None
+        return "%s: the protocol has a malformed line but the result is %s" % (where, _show(obs.get("items"))), "malformed-accepted"
+    if "err" in obs:
+        if case["via"] == "func":
+            return "%s: the protocol section is well formed but the translator raised %s" % (where, obs["err"]), "valid-rejected"
+        return "%s: the protocol section is well formed but the translator's %s was turned into a warning and every CsaSeries key was dropped" % (
+            where, obs["err"]), "valid-dropped"
+    _, chosen, text, other, merged = exp
+    if chosen:    # abstraction == generator truth: the element text the reader + simplify_csa_dict hand to the parser is the text written
+        seen = dict((k, v) for k, v in obs.get("in", []))
+        if seen.get(chosen, {}).get("t") != "str" or seen[chosen]["v"] != text:
+            return "%s: element %s reached the parser as %s" % (where, chosen, _show(seen.get(chosen))), "element-text-altered"
+    gd = {}
+    for k, v in obs["items"]:
+        if k in gd:
+            return "%s: key %s delivered twice" % (where, _show(k)), "key-duplicated"
+        gd[k] = v
+    want_keys = set(other) | set(m[0] for m in merged)
+    if chosen and chosen in gd:
+        return "%s: the raw element %s is still present" % (where, chosen), "raw-element-kept"
+    lost = [m[0] for m in merged if m[0] not in gd]
+    extra = [k for k in gd if k not in want_keys]
+    if lost:
+        return "%s: assignments lost %s (unexpected keys %s)" % (where, _show(lost), _show(extra)), ("merged-key-renamed" if extra else "assignment-lost")
+    lost_o = [k for k in other if k not in gd]
+    if lost_o:
+        return "%s: ordinary tags lost %s" % (where, _show(lost_o)), "other-key-lost"
+    if extra:
+        return "%s: unexpected keys %s" % (where, _show(extra)), "key-unexpected"
+    for nk, tag, val in merged:
+        if gd[nk].get("t") == "list" or not value_matches(gd[nk], tag, val):
+            return "%s: key %s should be %s (%s), got %s" % (where, _show(nk), _show(val), tag, _show(gd[nk])), (
+                "type-altered" if gd[nk].get("t") != tag else "value-altered")
+    for k, items in other.items():
+        v = gd[k]
+        if len(items) == 1:
+            ok = v.get("t") != "list" and _denotes(v, items[0])
+        else:
+            ok = v.get("t") == "list" and len(v["items"]) == len(items) and all(_denotes(x, y) for x, y in zip(v["items"], items))
+        if not ok:
+            return "%s: ordinary tag %s with items %s came back as %s" % (where, _show(k), _show(items), _show(v)), "other-value-altered"
+    return None, None
 
 
 def _gen_csa_tags(rng):
@@ -838,7 +990,7 @@ class Csa:
     SHARD = 40
     IMPL_TIMEOUT = 30
     RULE = ("a hand-built Siemens CSA2 ('SV10') series header with 0-8 ordinary tags (string / integer / float VRs, 0-6 items) and the protocol text "
-            "stored under MrPhoenixProtocol only, MrProtocol only (single-quote dialect), both, or neither, run through the real "
+            "stored under MrPhoenixProtocol only, MrProtocol only (single-quote dialect), both, or neither, (all latin-1 code points, incl. UTF-8 text as the reader decodes it) run through the real "
             "extract.csa_series_trans_func; one case in six goes through MetaExtractor() on a pydicom Dataset holding the header as (0029,1020) under the "
             "'SIEMENS CSA HEADER' private creator. The model gets the simplified dict (nibabel csareader + simplify_csa_dict, both outside the model) "
             "and must produce the same ordered dict or error. non-trivial = a protocol element with at least one assignment line")
@@ -874,44 +1026,46 @@ class Csa:
         raw = build_csa2(tags)
         simp = extract.simplify_csa_dict(extract.csareader.read(raw))
         obs = {"in": [[k, _obs_csa_val(v)] for k, v in simp.items()]}
-        if case["via"] == "func":
-            class Elem(object):
-                pass
-            elem = Elem()
-            elem.value = raw
+
+        class Elem(object):
+            value = raw
+
+        def direct():
+            # exceptions are classified by class and case region, never by their text
             try:
-                res = extract.csa_series_trans_func(elem)
+                res = extract.csa_series_trans_func(Elem())
             except extract.PhoenixParseError:
-                obs["err"] = "EPhoenix"
-                return obs
-            except AttributeError as e:
-                if "has no attribute 'find'" in str(e):
-                    obs["err"] = "EAttr"
-                    return obs
+                return {"err": "EPhoenix"}
+            except Exception:
+                if case.get("list_prot") and case["which"] != "none":
+                    return {"err": "EAttr"}       # region: the protocol element holds a LIST of items; the property says nothing, any refusal
                 raise
-            obs["items"] = [[k, _obs_csa_val(v)] for k, v in res.items()]
+            return {"items": [[k, _obs_csa_val(v)] for k, v in res.items()]}
+        if case["via"] == "func":
+            obs.update(direct())
             return obs
         import pydicom
         ds = pydicom.Dataset()
         ds.add_new((0x0029, 0x0010), "LO", "SIEMENS CSA HEADER")
         ds.add_new((0x0029, 0x1020), "OB", raw)
         ds.add_new((0x0010, 0x0010), "PN", "Phantom^C16")
-        with warnings.catch_warnings(record=True) as w:
-            warnings.simplefilter("always")
+        with warnings.catch_warnings():
+            warnings.simplefilter("ignore")
             meta = extract.MetaExtractor()(ds)
-        msgs = [str(x.message) for x in w if "Exception from translator" in str(x.message)]
         items = [[k[len("CsaSeries."):], _obs_csa_val(v)] for k, v in meta.items() if k.startswith("CsaSeries.")]
-        if msgs and not items:
-            if "Unable to parse phoenix protocol line" in msgs[0]:
-                obs["err"] = "EPhoenix"
-            elif "has no attribute 'find'" in msgs[0]:
-                obs["err"] = "EAttr"
-            else:
-                obs["crash"] = "TranslatorException"
-                obs["msg"] = msgs[0][:300]
+        if items:
+            obs["items"] = items
             return obs
-        obs["items"] = items
-        obs["other_keys"] = sorted(k for k in meta if not k.startswith("CsaSeries."))
+        # No CsaSeries key at all: either the translator returned an empty dict, or it raised and MetaExtractor turned the exception
+        # into a warning, dropping the whole group.  Which one is decided by calling the translator itself (exception class).
+        d = direct()
+        if "err" in d:
+            obs["err"] = d["err"]
+        elif d["items"]:
+            obs["crash"] = "CsaSeriesDropped"
+            obs["msg"] = "MetaExtractor returned no CsaSeries.* key although the translator returns %d keys" % len(d["items"])
+        else:
+            obs["items"] = []
         return obs
 
     @staticmethod
@@ -945,44 +1099,11 @@ class Csa:
 
     @staticmethod
     def oracle(case, obs):
-        try:
-            tags, exp = build_csa(case)
-        except Exception:
-            return None
-        where = "CSA series header (%s, via %s) with tags %s" % (case["which"], case["via"], _show([(t["name"], t["vr"], t["items"]) for t in tags]))
-        if "crash" in obs:
-            if obs["crash"] in ("HarnessFailure", "Timeout"):
-                return None
-            return "%s: crashed with %s %s" % (where, obs["crash"], obs.get("msg", "")[:200])
-        if exp is None:
-            return None
-        if exp[0] == "err":
-            return None if obs.get("err") == "EPhoenix" else "%s: the protocol has a malformed line but the result is %s" % (where, _show(obs.get("items")))
-        if "err" in obs:
-            how = "raised" if case["via"] == "func" else "was turned into a warning that dropped every CsaSeries key:"
-            return "%s: the protocol section is well formed but the translator %s %s" % (where, how, obs["err"])
-        got = obs["items"]
-        want = exp[1]
-        gk, wk = [g[0] for g in got], [w[0] for w in want]
-        if sorted(gk) != sorted(wk):
-            missing = [k for k in wk if k not in gk]
-            extra = [k for k in gk if k not in wk]
-            return "%s: keys missing %s, unexpected %s" % (where, _show(missing), _show(extra))
-        if gk != wk:
-            return "%s: key order %s, expected %s" % (where, _show(gk), _show(wk))
-        for g, w in zip(got, want):
-            v = g[1]
-            if w[1] == "one":
-                ok = v.get("t") != "list" and value_matches(v, w[2][0], w[2][1])
-            else:
-                ok = v.get("t") == "list" and len(v["items"]) == len(w[2]) and all(value_matches(x, y[0], y[1]) for x, y in zip(v["items"], w[2]))
-            if not ok:
-                return "%s: key %s should be %s, got %s" % (where, _show(w[0]), _show(w[2]), _show(v))
-        return None
+        return _csa_verdict(case, obs)[0]
 
     @staticmethod
     def signature(case, obs, msg):
-        return "phoenix-csa"
+        return "csa/%s/%s/%s" % (case.get("which"), case.get("via"), _csa_verdict(case, obs)[1] or "none")
 
     @staticmethod
     def nontrivial(case, obs):
